@@ -543,7 +543,7 @@ def run_asgi_pair(prefix, app, scopes, messages):
     return Execution(x.choices, x.points, results)
 
 
-def wsgi_thread_pairs(r, label, app, requests, pairs, files, bound=1, sig_prefix="threads"):
+def wsgi_thread_pairs(r, label, app, requests, pairs, files, bound=1, sig_prefix="threads", factory=None):
     """Two WSGI requests on one application object in two controlled threads, a scheduling point on every source line of `files`;
     all schedules with <= bound preemptions. Each request must get exactly what it gets alone. requests: {name: AReq}."""
     from . import vthreads as VT
@@ -552,9 +552,15 @@ def wsgi_thread_pairs(r, label, app, requests, pairs, files, bound=1, sig_prefix
     def obs(res):
         return (res.status, res.header_multiset(), res.body, type(res.exc).__name__ if res.exc else None)
 
-    solo = {k: obs(run_wsgi(app, to_environ(q))) for k, q in requests.items()}
+    # factory: build a new application object for every execution, so that whatever one execution leaves behind in the object
+    # cannot make the next execution of the same schedule take another course
+    get = factory if factory is not None else (lambda: app)
+    solo = {k: obs(run_wsgi(get(), to_environ(q))) for k, q in requests.items()}
     for a, b in pairs:
-        jobs = [lambda a=a: obs(run_wsgi(app, to_environ(requests[a]))), lambda b=b: obs(run_wsgi(app, to_environ(requests[b])))]
+        def run(prefix, a=a, b=b):
+            app_ = get()
+            jobs = [lambda: obs(run_wsgi(app_, to_environ(requests[a]))), lambda: obs(run_wsgi(app_, to_environ(requests[b])))]
+            return VT.run_thread_pair(prefix, jobs, files)
 
         def on_exec(x, a=a, b=b):
             r.count("evaluations")
@@ -564,11 +570,11 @@ def wsgi_thread_pairs(r, label, app, requests, pairs, files, bound=1, sig_prefix
             if x.obs["stuck"] or res != [solo[a], solo[b]]:
                 r.violation(f"{sig_prefix}:{label}", {"threads": label, "a": a, "b": b, "schedule": list(x.choices)},
                             f"{label}: requests '{a}' and '{b}' in two threads on one app object, schedule {x.obs['trace'][-12:]}: got {res!r:.220}, alone {[solo[a], solo[b]]!r:.220}")
-        dfs(lambda prefix: VT.run_thread_pair(prefix, jobs, files), on_exec, bound=bound)
+        dfs(run, on_exec, bound=bound)
         r.count("distinct_nontrivial")
 
 
-def asgi_task_pairs(r, label, app, requests, pairs, bound=2, sig_prefix="tasks"):
+def asgi_task_pairs(r, label, app, requests, pairs, bound=2, sig_prefix="tasks", factory=None):
     """Two ASGI requests on one application object as two tasks on one loop; every receive() and send() is an event, all schedules
     with <= bound deviations from the default order. Each request must get exactly what it gets alone. requests: {name: AReq}."""
     from .explore import dfs
@@ -576,10 +582,11 @@ def asgi_task_pairs(r, label, app, requests, pairs, bound=2, sig_prefix="tasks")
     def obs(res):
         return (res.status, res.header_multiset(), res.body, type(res.exc).__name__ if res.exc else None)
 
-    solo = {k: obs(run_asgi(app, to_scope(q), to_messages(q))) for k, q in requests.items()}
+    get = factory if factory is not None else (lambda: app)
+    solo = {k: obs(run_asgi(get(), to_scope(q), to_messages(q))) for k, q in requests.items()}
     for a, b in pairs:
         def run(prefix, a=a, b=b):
-            return run_asgi_pair(prefix, app, [to_scope(requests[a]), to_scope(requests[b])], [to_messages(requests[a]), to_messages(requests[b])])
+            return run_asgi_pair(prefix, get(), [to_scope(requests[a]), to_scope(requests[b])], [to_messages(requests[a]), to_messages(requests[b])])
 
         def on_exec(x, a=a, b=b):
             r.count("evaluations")
